@@ -692,3 +692,44 @@ def run(ctx) -> None:  # noqa: F811
     n = memo2.check(ctx, modules={"abtem.integrals", "abtem.potentials.iam", "abtem.multislice", "abtem.antialias", "abtem.finite_difference", "abtem.magnetism.iam", "abtem.potentials.charge_density", "abtem.potentials.gpaw", "abtem.slicing"})
     ctx.ok("R-CACHEKEY", "scan", "abtem/", f"{n} cache stores found in the anchored modules; positive control matched")
     _inner_run(ctx)
+
+
+# ---- added: grid setters of potentials must not assign their own property (found on the tree: CrystalPotential.sampling)
+_inner_run_c11b = run
+
+
+def run(ctx) -> None:  # noqa: F811
+    import ast as _ast
+
+    from ..model import dotted as _dotted, norm_text as _nt, walk_no_nested as _walk
+
+    ctx.rule("R-SETTERSELF", "a property setter of a potential / field class never assigns its own property on self "
+             "(`self.sampling = ...` inside the `sampling` setter calls the setter again, without bound): changing the "
+             "grid of such a potential raises RecursionError instead of re-gridding it.  The grid setters of "
+             "CrystalPotential forward the new value to self.grid and to the potential unit")
+    repo = ctx.repo
+    mods = ("abtem.potentials.iam", "abtem.potentials.charge_density", "abtem.potentials.gpaw", "abtem.magnetism.iam",
+            "abtem.core.grid")
+    # positive control
+    ctrl = _ast.parse("class K:\n    @property\n    def s(self):\n        return 1\n    @s.setter\n    def s(self, v):\n        self.s = v\n")
+    cs = [st for st in _ast.walk(ctrl) if isinstance(st, _ast.Assign) and _dotted(st.targets[0]) == "self.s"]
+    ctx.require(len(cs) == 1, "R-SETTERSELF positive control failed")
+    n = 0
+    for mname in mods:
+        mod = repo.modules.get(mname)
+        if mod is None:
+            continue
+        for c in mod.classes.values():
+            for defs in c.methods.values():
+                for f in defs:
+                    if not f.is_setter:
+                        continue
+                    n += 1
+                    own = [st for st in _walk(f.node) if isinstance(st, (_ast.Assign, _ast.AugAssign)) and any(
+                        _dotted(t) == f"self.{f.name}" for t in (st.targets if isinstance(st, _ast.Assign) else [st.target]))]
+                    ctx.check(not own, "R-SETTERSELF", f"{f.qualname}.setter", f.loc(own[0]) if own else f.where,
+                              "does not assign its own property",
+                              f"`{_nt(own[0])}` inside the `{f.name}` setter invokes the setter again: unbounded "
+                              "recursion, the potential's grid cannot be changed" if own else "", key_detail="self-assign")
+    ctx.require(n >= 6, f"R-SETTERSELF examined only {n} setters")
+    _inner_run_c11b(ctx)
